@@ -519,12 +519,10 @@ func (s *Stream) ReadMessageBytes(ctx context.Context, data []byte) (int, error)
 
 	available := len(s.receiveBuffer) - s.bytesRead
 	if available == 0 {
-		// Need to read more frames
-		err := s.readNextFrame(ctx)
-		if err != nil {
-			return 0, err
-		}
-		available = len(s.receiveBuffer) - s.bytesRead
+		// StartMessageRead buffered the whole message (every frame up to the
+		// end flag), so nothing left means end of message. Reading another
+		// frame here would pull the NEXT message's bytes into this one.
+		return 0, io.EOF
 	}
 
 	// Read up to requested amount or available amount
